@@ -2,6 +2,7 @@
 import itertools
 
 from .. import drv_md3 as D
+from ..core import pmap
 
 KINDS = [("update", 1), ("update", 0), ("update2",), ("label", 1, 1), ("label", 0, 0), ("label_badcols", 1, 1), ("label2",)]
 
@@ -21,17 +22,17 @@ def run(ctx):
     rep = lambda ts: (lambda i: {"params": ts[i]["params"], "script": ts[i]["script"], "seed": ts[i]["seed"]})
     # every interleaving of the seven call kinds up to depth n on the real class
     n, ncfg = (3, 4) if q else (5, 4)
-    ts = []
+    work = []
     for _ in range(ncfg):
         p = params(rng, small=True)
         seed = rng.randrange(10 ** 6)
-        for script in itertools.product(KINDS, repeat=n):
-            ts.append(D.run(p, list(script), seed))
+        work += [(p, list(script), seed) for script in itertools.product(KINDS, repeat=n)]
+    ts = pmap(D.run, work)
     ctx.validate("MD3", ts, "all interleavings of 7 call kinds, depth %d x %d configurations" % (n, ncfg), sabotage=D.sabotage,
                  replay=rep(ts), nontrivial=lambda t: any(e["state"] != "None" for e in t["ev"]) and any(e["raised"] != "None" for e in t["ev"]))
     # long random scripts
     n2, ln = (60, 150) if q else (400, 400)
-    t2 = [D.run(params(rng), D.random_script(rng, ln), rng.randrange(10 ** 6)) for _ in range(n2)]
+    t2 = pmap(D.run, [(params(rng), D.random_script(rng, ln), rng.randrange(10 ** 6)) for _ in range(n2)])
     ctx.validate("MD3", t2, "random scripts of update / give_oracle_label calls", sabotage=D.sabotage, replay=rep(t2),
                  nontrivial=lambda t: any(e["state"] == "drift" for e in t["ev"]))
     ctx.assumptions += ["fold assignment from sklearn KFold(random_state=42); per-row margin / correctness bits are computed with the user's own "
